@@ -438,10 +438,11 @@ def swapRemoveHead : List Elem → List Elem
 
 /-- the `while j < node.len()` loop of `compress` for a fixed `i`: `p` is the current prime of
 element `i`, `s` its sub, `done` the already scanned elements `i+1..j-1`, the list argument the
-elements `j..`; `n` bounds the number of iterations (initially the length of the list) -/
+elements `j..`; `n` bounds the number of iterations (initially the length of the list, so the
+`0` case is only reached with an empty list) -/
 def compressInner (andF : AndF σ) (s : Ptr) :
     Nat → σ → Ptr → List Elem → List Elem → Option (σ × Ptr × List Elem)
-  | 0, st, p, done, _ => some (st, p, done)
+  | 0, st, p, done, rem => some (st, p, done ++ rem)
   | _ + 1, st, p, done, [] => some (st, p, done)
   | n + 1, st, p, done, (q, t) :: rest =>
     if s = t then
